@@ -1,1 +1,345 @@
-(* C12 stub: to be written *)
+(* C12 — the simulate loop with probes, acquisition times, flatten, modify.
+   Mirrors epgpy/functions.py: simulate / simulate_simple (probe override,
+   post of the in-sequence operator, times, transposition, single-probe
+   flattening), get_adc_times, flatten_sequence, modify / default_modifier;
+   epgpy/probe.py: Probe / Adc (_acquire: weights, reduce; _post: phasor);
+   epgpy/operator.py: durations (MultiOperator = sum of members).
+
+   State: a 1-D batch (shape (B,)) of independent scalar state matrices; every
+   operator of Model/Ops.v acts on each member.  Weights / reduce / phasor are
+   modelled for this 1-D batch axis (numpy broadcasting of 1-D arrays whose
+   sizes are equal or 1).  Durations are scalars (Qc).
+
+   External constructors (coefficients of T / E / P are the business of C01,
+   C02; here only WHICH operator is built from WHICH parameters matters) are
+   section variables: [par] parameter values, [mkT mkE mkP] constructors.     *)
+From Coq Require Import List ZArith Lia Bool QArith Qcanon.
+From EPG Require Import Scalar State Ops.
+Import ListNotations.
+
+(* 0 < d on canonical rationals, executable *)
+Definition qc_pos (d : Qc) : bool := (0 <? Qnum (this d))%Z.
+
+Section Run.
+Variable S : ScalOps.
+Notation sm := (sm S).
+Notation op := (op S).
+
+(* ------------------------------------------------------------------ batch *)
+Definition bstate := list sm.
+Definition bapply (o : op) (b : bstate) : bstate := map (apply o) b.
+Definition brun (ops : list op) (b : bstate) : bstate :=
+  fold_left (fun b o => bapply o b) ops b.
+
+(* ------------------------------------------------------------------ probes *)
+(* what a probe reads: F0, Z0 (centre state) or any function of the state
+   (Probe("expression") / Probe(callable)) *)
+Inductive quantity : Type := QF0 | QZ0 | QFun (f : sm -> S).
+Definition qeval (q : quantity) (s : sm) : S :=
+  match q with
+  | QF0 => fp (centre (st s))
+  | QZ0 => fz (centre (st s))
+  | QFun f => f s
+  end.
+
+(* a recorded value: 1-D array over the batch axis, or a single number (0-d) after reduction *)
+Definition value := list S.
+
+(* numpy broadcasting x (op) y of two 1-D arrays whose sizes are equal or 1 *)
+Definition bcast2 (f : S -> S -> S) (x y : value) : value :=
+  match x, y with
+  | [a], _ => map (f a) y
+  | _, [c] => map (fun u => f u c) x
+  | _, _ => map (fun uv => f (fst uv) (snd uv)) (combine x y)
+  end.
+
+Fixpoint ksum (l : value) : S :=
+  match l with [] => k0 | x :: t => (x + ksum t)%K end.
+
+(* Adc(attr, phase=, reduce=, weights=):  reduce argument as given *)
+Inductive reduce_arg : Type := RNone | RTrue | RFalse | RAxes.
+
+Record probe : Type := mkProbe {
+  pq : quantity;
+  pweights : option value;      (* weights (1-D or size 1) *)
+  preduce : reduce_arg;
+  pphasor : option value        (* exp(i*phase) : size 1 or batch size; None when phase is None *)
+}.
+
+(* Adc.__init__: reduce=None with weights -> all weights axes; _acquire: None/False -> no sum *)
+Definition reduces (p : probe) : bool :=
+  match preduce p with
+  | RNone => match pweights p with Some _ => true | None => false end
+  | RTrue | RAxes => true
+  | RFalse => false
+  end.
+
+(* Adc._acquire: attribute, times weights, summed when reducing *)
+Definition pacq (p : probe) (b : bstate) : value :=
+  let arr := map (qeval (pq p)) b in
+  let arr := match pweights p with None => arr | Some w => bcast2 kmul arr w end in
+  if reduces p then [ksum arr] else arr.
+
+(* Adc._post: phase compensation, after reduction *)
+Definition ppost (p : probe) (v : value) : value :=
+  match pphasor p with None => v | Some ph => bcast2 kmul v ph end.
+
+(* Probe.acquire(sm, post=...) *)
+Definition acquire (pb : probe) (post : value -> value) (b : bstate) : value := post (pacq pb b).
+
+(* ------------------------------------------------------------------ sequences *)
+Variable par : Type.                         (* parameter values (angles, T1, T2, g, att) *)
+Variable mkT : par -> par -> op.             (* operators.T(alpha, phi) *)
+Variable mkE : Qc -> par -> par -> par -> op.  (* operators.E(tau, T1, T2, g) *)
+Variable mkP : Qc -> par -> op.              (* operators.P(tau, g) *)
+Variable pscale : par -> par -> par.         (* alpha * att *)
+Variable is_one : par -> bool.               (* np.allclose(att, 1) *)
+Variable pbig pzero : par.                   (* 1e10, 0 *)
+
+(* operator descriptions: a ready-made operator, or one of the constructors modify() knows/creates *)
+Inductive opd : Type :=
+| DOp (o : op)
+| DT (alpha phi : par)
+| DE (tau : Qc) (T1 T2 g : par)
+| DP (tau : Qc) (g : par).
+Definition den (x : opd) : op :=
+  match x with
+  | DOp o => o
+  | DT a p => mkT a p
+  | DE t a b g => mkE t a b g
+  | DP t g => mkP t g
+  end.
+
+(* a flat sequence item; [id] stands for Python object identity (same id = same object) *)
+Inductive item : Type :=
+| IOp (id : nat) (x : opd) (d : Qc)
+| IProbe (id : nat) (p : probe) (d : Qc).
+Definition dur (i : item) : Qc := match i with IOp _ _ d => d | IProbe _ _ d => d end.
+Definition item_id (i : item) : nat := match i with IOp n _ _ => n | IProbe n _ _ => n end.
+Definition is_probe (i : item) : bool := match i with IProbe _ _ _ => true | _ => false end.
+
+(* nested lists and MultiOperators ([multi] = true) *)
+Inductive tree : Type :=
+| Leaf (i : item)
+| Node (multi : bool) (l : list tree).
+
+(* flatten_sequence (flatten_multi=True) *)
+Fixpoint flat (t : tree) : list item :=
+  match t with
+  | Leaf i => [i]
+  | Node _ l => flat_map flat l
+  end.
+Definition flat_seq (l : list tree) : list item := flat_map flat l.
+
+Fixpoint qsum (l : list Qc) : Qc := match l with [] => Q2Qc 0 | x :: t => x + qsum t end.
+
+(* MultiOperator.duration: accumulated by append(), a nested MultiOperator contributes its own duration *)
+Fixpoint tree_dur (t : tree) : Qc :=
+  match t with
+  | Leaf i => dur i
+  | Node _ l => qsum (map tree_dur l)
+  end.
+
+(* simulate_simple: returns (rows, times); a row has one value per override probe (or one) *)
+Definition overrides := list (option probe).
+Definition row_of (p : probe) (ov : overrides) (b : bstate) : list value :=
+  map (fun pb => acquire (match pb with Some q => q | None => p end) (ppost p) b)
+      (match ov with [] => [None] | _ => ov end).
+
+Fixpoint sim (seq : list item) (ov : overrides) (b : bstate) (tic : Qc) : list (list value) * list Qc :=
+  match seq with
+  | [] => ([], [])
+  | IOp _ x d :: t => sim t ov (bapply (den x) b) (tic + d)
+  | IProbe _ p d :: t =>
+      let tic' := tic + d in
+      let r := sim t ov b tic' in
+      (row_of p ov b :: fst r, tic' :: snd r)
+  end.
+
+(* get_adc_times *)
+Fixpoint adc_times_from (seq : list item) (tim : Qc) : list Qc :=
+  match seq with
+  | [] => []
+  | i :: t => let tim' := tim + dur i in
+              if is_probe i then tim' :: adc_times_from t tim' else adc_times_from t tim'
+  end.
+Definition adc_times (seq : list item) : list Qc := adc_times_from seq (Q2Qc 0).
+Definition get_adc_times (l : list tree) : list Qc := adc_times (flat_seq l).
+
+(* simulate(): values = tuple(zip( *values )), single flattening *)
+Definition nprobes (ov : overrides) : nat := match ov with [] => 1%nat | _ => length ov end.
+Definition transpose (n : nat) (rows : list (list value)) : list (list value) :=
+  tab n (fun j => map (fun r => nth j r []) rows).
+Inductive simout : Type := Single (l : list value) | Multi (ll : list (list value)).
+Definition simulate_model (l : list tree) (ov : overrides) (b : bstate) : simout * list Qc :=
+  let r := sim (flat_seq l) ov b (Q2Qc 0) in
+  let v := transpose (nprobes ov) (fst r) in
+  (match v with [x] => Single x | _ => Multi v end, snd r).
+
+(* ------------------------------------------------------------------ modify *)
+Record mparams : Type := mkMP { mT1 : option par; mT2 : option par; mg : option par; matt : option par }.
+
+Definition odefault (d : par) (x : option par) : par := match x with Some v => v | None => d end.
+
+(* the evolution default_modifier attaches to an operator of duration d *)
+Definition evol_of (P : mparams) (d : Qc) : option opd :=
+  match mT1 P, mT2 P, mg P with
+  | None, None, None => None
+  | None, None, Some g => Some (DP d g)
+  | a, b, g => Some (DE d (odefault pbig a) (odefault pbig b) (odefault pzero g))
+  end.
+
+(* ids of the objects modify() creates for the original object [n]: (new T, attached evolution) *)
+Definition tid (n : nat) : nat := (3 * n + 1)%nat.
+Definition eid (n : nat) : nat := (3 * n + 2)%nat.
+
+(* B1 attenuation: a T operator is rebuilt with alpha*att (same phi, same duration) *)
+Definition att_item (P : mparams) (i : item) : item :=
+  match i with
+  | IOp n (DT a p) d =>
+      match matt P with
+      | None => i
+      | Some k => if is_one k then i else IOp (tid n) (DT (pscale a k) p) d
+      end
+  | _ => i
+  end.
+
+(* default_modifier: returns the operator itself or the MultiOperator  op * E(duration=0) *)
+Definition modifier (P : mparams) (i : item) : tree :=
+  let i' := att_item P i in
+  if qc_pos (dur i') then
+    match evol_of P (dur i') with
+    | None => Leaf i'
+    | Some e => Node true [Leaf i'; Leaf (IOp (eid (item_id i)) e (Q2Qc 0))]
+    end
+  else Leaf i'.
+
+Fixpoint lookup (n : nat) (memo : list (nat * tree)) : option tree :=
+  match memo with
+  | [] => None
+  | (m, t) :: r => if Nat.eqb n m then Some t else lookup n r
+  end.
+
+(* the loop of modify(): memo [opdict] keyed by operator object *)
+Fixpoint modify_go (P : mparams) (seq : list item) (memo : list (nat * tree)) : list tree :=
+  match seq with
+  | [] => []
+  | i :: t =>
+      match lookup (item_id i) memo with
+      | Some tr => tr :: modify_go P t memo
+      | None => let tr := modifier P i in tr :: modify_go P t ((item_id i, tr) :: memo)
+      end
+  end.
+
+Definition has_params (P : mparams) : bool :=
+  match mT1 P, mT2 P, mg P, matt P with None, None, None, None => false | _, _, _, _ => true end.
+
+(* modify(sequence, **params) with the default modifier: list of (Multi)operators *)
+Definition modify_model (l : list tree) (P : mparams) : list tree :=
+  if has_params P then modify_go P (flat_seq l) [] else l.
+
+(* specification: after every item of positive duration, an evolution of that duration
+   (own duration 0); flip angles of T scaled by att *)
+Definition insert_E (seq : list item) (P : mparams) : list item :=
+  flat_map (fun i =>
+    let i' := att_item P i in
+    i' :: (if qc_pos (dur i) then
+             match evol_of P (dur i) with Some e => [IOp (eid (item_id i)) e (Q2Qc 0)] | None => [] end
+           else [])) seq.
+
+(* ------------------------------------------------------------------ executable comparisons *)
+Fixpoint list_eq_nat (x y : list nat) : bool :=
+  match x, y with
+  | [], [] => true
+  | a :: x', b :: y' => Nat.eqb a b && list_eq_nat x' y'
+  | _, _ => false
+  end.
+Definition veqb (x y : value) : bool := all2 keqb x y.
+Definition vseqb (x y : list value) : bool := all2 veqb x y.
+Definition qceqb (x y : list Qc) : bool := all2 Qc_eq_bool x y.
+Definition simout_eqb (a b : simout) : bool :=
+  match a, b with
+  | Single x, Single y => vseqb x y
+  | Multi x, Multi y => all2 vseqb x y
+  | _, _ => false
+  end.
+(* same with a caller-supplied comparison of scalars (tolerance for the inexact float phasor) *)
+Definition simout_cmp (cmp : S -> S -> bool) (a b : simout) : bool :=
+  match a, b with
+  | Single x, Single y => all2 (all2 cmp) x y
+  | Multi x, Multi y => all2 (all2 (all2 cmp)) x y
+  | _, _ => false
+  end.
+
+(* durations of the MultiOperators of a nested sequence, pre-order *)
+Fixpoint multi_durs (t : tree) : list Qc :=
+  match t with
+  | Leaf _ => []
+  | Node m l => (if m then [tree_dur t] else []) ++ flat_map multi_durs l
+  end.
+
+(* verdict of one correspondence case: values, times of simulate(adc_time=True), get_adc_times,
+   MultiOperator.duration attributes *)
+Definition sim_ok_by (cmp : S -> S -> bool) (l : list tree) (ov : overrides) (b : bstate)
+    (vals : simout) (times adc mdur : list Qc) : bool :=
+  let r := simulate_model l ov b in
+  simout_cmp cmp (fst r) vals && qceqb (snd r) times && qceqb (get_adc_times l) adc
+  && qceqb (flat_map multi_durs l) mdur.
+Definition sim_ok := sim_ok_by keqb.
+
+(* ---- structural comparison of modify() output (object identity by first occurrence) ---- *)
+Variable par_eqb : par -> par -> bool.
+Definition opd_eqb (x y : opd) : bool :=
+  match x, y with
+  | DOp _, DOp _ => true                       (* ready-made operators are compared by identity (ids) *)
+  | DT a p, DT a' p' => par_eqb a a' && par_eqb p p'
+  | DE t a b g, DE t' a' b' g' => Qc_eq_bool t t' && par_eqb a a' && par_eqb b b' && par_eqb g g'
+  | DP t g, DP t' g' => Qc_eq_bool t t' && par_eqb g g'
+  | _, _ => false
+  end.
+(* original objects carry ids = 0 mod 3 and must coincide; created objects are matched by content *)
+Definition id_ok (n m : nat) : bool :=
+  if Nat.eqb (n mod 3) 0 then Nat.eqb n m else negb (Nat.eqb (m mod 3) 0).
+Definition item_eqb (i j : item) : bool :=
+  match i, j with
+  | IOp n x d, IOp m y e => id_ok n m && opd_eqb x y && Qc_eq_bool d e
+  | IProbe n _ d, IProbe m _ e => Nat.eqb n m && Qc_eq_bool d e
+  | _, _ => false
+  end.
+Fixpoint tree_eqb (s t : tree) : bool :=
+  match s, t with
+  | Leaf i, Leaf j => item_eqb i j
+  | Node m l, Node m' l' =>
+      Bool.eqb m m' &&
+      (fix go (a b : list tree) : bool :=
+         match a, b with
+         | [], [] => true
+         | x :: a', y :: b' => tree_eqb x y && go a' b'
+         | _, _ => false
+         end) l l'
+  | _, _ => false
+  end.
+Fixpoint index_of (n : nat) (l : list nat) : nat :=
+  match l with [] => 0%nat | m :: r => if Nat.eqb n m then 0%nat else Datatypes.S (index_of n r) end.
+Definition first_occ (l : list nat) : list nat := map (fun n => index_of n l) l.
+(* modify() returned [obs]: same nesting, same operators, same sharing of objects, same durations *)
+Definition modify_ok (l : list tree) (P : mparams) (obs : list tree) : bool :=
+  let m := modify_model l P in
+  all2 tree_eqb m obs
+  && list_eq_nat (first_occ (map item_id (flat_seq m))) (first_occ (map item_id (flat_seq obs)))
+  && qceqb (get_adc_times m) (get_adc_times l).
+
+End Run.
+
+Arguments QF0 {S}. Arguments QZ0 {S}. Arguments QFun {S}.
+Arguments mkProbe {S}. Arguments pq {S}. Arguments pweights {S}. Arguments preduce {S}. Arguments pphasor {S}.
+Arguments qeval {S}. Arguments bcast2 {S}. Arguments ksum {S}. Arguments pacq {S}. Arguments ppost {S}.
+Arguments acquire {S}. Arguments reduces {S}. Arguments bapply {S}. Arguments brun {S}.
+Arguments DOp {S par}. Arguments DT {S par}. Arguments DE {S par}. Arguments DP {S par}.
+Arguments IOp {S par}. Arguments IProbe {S par}. Arguments Leaf {S par}. Arguments Node {S par}.
+Arguments dur {S par}. Arguments item_id {S par}. Arguments is_probe {S par}.
+Arguments flat {S par}. Arguments flat_seq {S par}. Arguments tree_dur {S par}.
+Arguments adc_times_from {S par}. Arguments adc_times {S par}. Arguments get_adc_times {S par}.
+Arguments Single {S}. Arguments Multi {S}. Arguments transpose {S}. Arguments nprobes {S}.
+Arguments row_of {S}. Arguments veqb {S}. Arguments vseqb {S}. Arguments simout_eqb {S}.
+Arguments mkMP {par}. Arguments mT1 {par}. Arguments mT2 {par}. Arguments mg {par}. Arguments matt {par}.
